@@ -137,7 +137,7 @@ def _varopt_drift(oc, repo, seed, tier):
       "one deleted candidate) refining the contract, of the multi-object contract (sketch, copies, union results), and two negative "
       "design variants that TLC must reject; traces: randomized histories of the real var_opt_sketch<int64_t / std::string> and "
       "var_opt_union (8 weight profiles, k 1..24(64), lvalue/rvalue updates, invalid k / weights, copies, reset, unions of sketches with "
-      "different k and fill incl. light-many against heavy-few inputs and results fed on and updated, serde of sketches and unions with continued use of the restored objects), "
+      "different k and fill incl. light-many against heavy-few inputs, pure-reservoir inputs of different k and results fed on and updated, damaged images refused, serde of sketches and unions with continued use of the restored objects), "
       "every event validated by TLC against the contract: |sample| = min(n,k), sample from the input, one common reservoir weight, "
       "H + tau*|R| = exact total, every item heavier than tau kept exactly, estimate over everything = total, lb <= est <= ub for 6 predicates, "
       "union result n / total / items / k <= max_k; Stat events: 400 seeded runs per statistic, |sum(est - truth)| <= 6*sqrt(sum (est-truth)^2) + T/2 + 1; "
